@@ -1,0 +1,25 @@
+//go:build verif
+
+package cleaner
+
+import (
+	"maps"
+	"time"
+)
+
+// Read access to the worker's bookkeeping for verification harnesses (build
+// tag verif only): used to key explored states on the real hidden state.
+
+func (w *Worker) VerifFirstSeen() map[string]time.Time {
+	return maps.Clone(w.snapFirstSeen)
+}
+
+func (w *Worker) VerifIgnored() map[string]bool {
+	return maps.Clone(w.ignoredFilenames)
+}
+
+func (w *Worker) VerifCommitted() map[string]time.Time {
+	w.mu.Lock()
+	defer w.mu.Unlock()
+	return maps.Clone(w.lastByInstance)
+}
